@@ -64,7 +64,7 @@ pub fn strategy() -> impl Strategy<Value = Case> {
         proptest::collection::vec(file_init(1, 8), 2..=2),
         proptest::collection::vec(edit_op(gen::edit_r1()), 0..=3),
         0u8..N_TARGETS,
-        proptest::collection::vec((any::<u16>(), 0u8..3), 8..=12),
+        proptest::collection::vec((any::<u16>(), 0u8..5), 36..=44),
         proptest::collection::vec((0u8..5, 0u8..5, any::<u16>()).prop_map(|(target, how, pos)| Corruption { target, how, pos }), 3..=6),
     )
         .prop_map(|(files, prefix, target, faults, corruptions)| Case { files, prefix, target, faults, corruptions })
@@ -141,6 +141,24 @@ fn aftermath(sb: &mut Sandbox, repo: &Path, f0: &str, wrapper: bool) -> (Vec<i32
     codes.push(co.code);
     codes.push(g(sb, &["log", "--oneline", "-1"]).code);
     (codes, repo_digest(sb, repo))
+}
+
+/// commit -> note blob of every note in the repository
+fn notes_map(sb: &mut Sandbox, repo: &Path) -> BTreeMap<String, String> {
+    let list = sb.real_git(repo, &["notes", "--ref=ai", "list"]);
+    list.out().lines().filter_map(|l| l.split_once(' ').map(|(b, c)| (c.trim().to_string(), b.to_string()))).collect()
+}
+
+/// "existing notes stay readable": every commit that had a note before the faulted
+/// command and still exists must still have one
+fn check_existing_notes(sb: &mut Sandbox, repo: &Path, before: &BTreeMap<String, String>, rep: &mut CaseReport, ctx: &str) {
+    let after = notes_map(sb, repo);
+    for c in before.keys() {
+        if !after.contains_key(c) && sb.real_git(repo, &["cat-file", "-e", &format!("{c}^{{commit}}")]).ok() {
+            rep.violate("C07:existing-note-lost-after-fault", format!("{ctx}: commit {} had an authorship note before the command and has none now ({} notes before, {} after)", &c[..8.min(c.len())], before.len(), after.len()));
+            return;
+        }
+    }
 }
 
 fn check_notes_and_blame(sb: &mut Sandbox, repo: &Path, ai_keys: &BTreeSet<String>, rep: &mut CaseReport, ctx: &str) {
@@ -296,6 +314,7 @@ pub fn run(case: &Case) -> CaseReport {
     a.mode = Mode::Plain;
     let arepo = a.root.join(repo_rel);
     let pre_digest = repo_digest(&mut a, &arepo);
+    let pre_notes = notes_map(&mut a, &arepo);
     let oa = run_target(&mut a, &arepo, &argv, false, &[]);
     let ref_a = observe(&mut a, &arepo, oa);
     let (after_codes_a, after_digest_a) = aftermath(&mut a, &arepo, &f0, false);
@@ -359,7 +378,7 @@ pub fn run(case: &Case) -> CaseReport {
     let mut plan: Vec<(u64, u8)> = Vec::new();
     if exhaustive {
         for k in 1..=n_calls {
-            for m in 0..3u8 {
+            for m in 0..5u8 {
                 plan.push((k, m));
             }
         }
@@ -372,7 +391,7 @@ pub fn run(case: &Case) -> CaseReport {
         }
     }
     for (k, m) in plan {
-        let mode = ["fail", "garbage", "kill"][m as usize % 3];
+        let mode = ["fail", "garbage", "kill", "fail128", "fail1"][m as usize % 5];
         let mut f = Sandbox::fork_from(&e.w.sb);
         let frepo = f.root.join(repo_rel);
         let counter = f.root.join("shim.count");
@@ -455,6 +474,7 @@ pub fn run(case: &Case) -> CaseReport {
             );
         }
         check_notes_and_blame(&mut f, &frepo, &ai_keys, &mut rep, &ctx);
+        check_existing_notes(&mut f, &frepo, &pre_notes, &mut rep, &ctx);
     }
 
     // ---- corruption of git-ai's private state before T
@@ -505,6 +525,7 @@ pub fn run(case: &Case) -> CaseReport {
             );
         }
         check_notes_and_blame(&mut f, &frepo, &ai_keys, &mut rep, &ctx);
+        check_existing_notes(&mut f, &frepo, &pre_notes, &mut rep, &ctx);
     }
     rep
 }
@@ -514,10 +535,10 @@ pub fn spec_for(tier: Tier) -> Spec<Case> {
     Spec {
         id: "C07",
         level: "fault_enumeration",
-        rule: "pre-state = generated small history (two files, committed and pending agent work, a side branch, 0-3 generated edits) behind the wrapper whose git_path points at a stand-in; target command T from 13 hooked commands (commit, amend, rebase, cherry-pick, reset --soft/--mixed/--hard, stash, stash pop, switch, merge --squash, checkout -- <path>, empty commit). A counting run learns N, the number of internal git calls T makes. From byte copies of the pre-state T is re-run once per fault (k, mode): the k-th internal call fails (exit 97 + stderr), returns success with empty output, or the wrapper is SIGKILLed at that call - quick: 8-12 sampled k per case, thorough: every k x every mode - and once per generated corruption of .git/ai (truncate / flip bytes / delete / replace by directory / garbage, on rewrite_log, checkpoints.jsonl, INITIAL, blobs, working-log directories). Oracle: a plain-git twin runs T from the same pre-state; each faulted run must be transparent (exit, stdout, state digest equal the twin's) or a clean refusal (proxied git never started per the stand-in's log, exit != 0, stderr non-empty, state equal to the pre-state); for kill only the state counts. Aftermath: a fixed un-faulted follow-up (status, human edit, agent edit, add, commit, log) must match the corresponding twin, every note must still parse, and blame may report as AI only text an agent wrote. non-trivial = a fault that actually fired, or an applicable corruption; distinct by case hash".into(),
+        rule: "pre-state = generated small history (two files, committed and pending agent work, a side branch, 0-3 generated edits) behind the wrapper whose git_path points at a stand-in; target command T from 13 hooked commands (commit, amend, rebase, cherry-pick, reset --soft/--mixed/--hard, stash, stash pop, switch, merge --squash, checkout -- <path>, empty commit). A counting run learns N, the number of internal git calls T makes. From byte copies of the pre-state T is re-run once per fault (k, mode): the k-th internal call fails (exit 97 + stderr; exit 128 + 'fatal:' as git itself fails; bare exit 1 as git reports 'no such ref'), returns success with empty output, or the wrapper is SIGKILLed at that call - quick: 36-44 sampled (k, mode) per case, thorough: every k x every mode - and once per generated corruption of .git/ai (truncate / flip bytes / delete / replace by directory / garbage, on rewrite_log, checkpoints.jsonl, INITIAL, blobs, working-log directories). Oracle: a plain-git twin runs T from the same pre-state; each faulted run must be transparent (exit, stdout, state digest equal the twin's) or a clean refusal (proxied git never started per the stand-in's log, exit != 0, stderr non-empty, state equal to the pre-state); for kill only the state counts. Aftermath: a fixed un-faulted follow-up (status, human edit, agent edit, add, commit, log) must match the corresponding twin, every note must still parse, every commit that had a note before T and still exists must still have one, and blame may report as AI only text an agent wrote. non-trivial = a fault that actually fired, or an applicable corruption; distinct by case hash".into(),
         cases_quick: 42,
         cases_thorough: 52,
-        shrink_iters: 30,
+        shrink_iters: 8,
         workers: 14,
         strategy: strategy().sboxed(),
         run,
